@@ -72,7 +72,8 @@ def bounds(tier):
             "load_factors": LOADF, "cycle_factors": CYCF,
             "broadcast": {"curve_menu": len(_bc_menu()), "frames": "all ordered pairs and triples" if tier != "quick" else "all ordered pairs",
                           "layouts": BC_LAYOUTS, "P": (0.5, 0.1)},
-            "scatter_conversion": {"T": CONV_T, "std": CONV_S}}
+            "scatter_conversion": {"T": CONV_T, "std": CONV_S},
+            "call_histories": {"depth": HIST_DEPTH[tier], "curves": HIST_CURVES[tier], "operations": [_hist_name(o) for o in HIST_OPS]}}
 
 
 def _curve_cases(tier):
@@ -93,6 +94,9 @@ def shards(tier):
     out = [("conv",)]
     out += [("curves", block) for block in chunked(_curve_cases(tier), 60)]
     out += [("bc", block) for block in chunked(_bc_cases(tier), 40)]
+    for cv in HIST_CURVES[tier]:
+        out.append(("history", cv, 1, ()))
+        out += [("history", cv, HIST_DEPTH[tier], (i,)) for i in range(len(HIST_OPS))]
     return out
 
 
@@ -543,9 +547,96 @@ def check_conversion(kind, x):
     return viol
 
 
+
+# ---- call histories on kept curve objects -------------------------------------------------------------------------
+# Every sequence of calls up to a depth on two object slots: K, the accessor obtained once from the caller's Series and
+# kept, and D, whatever the last constructor call returned (transform_to_failure_probability / miner_*; applied to K or
+# to D itself).  Queries: cycles / load at a point on either side of the knee, at the native and at another probability,
+# on K and on D.  Oracle for every answer: the plain-Python reference curve with the k_2 the slot's Miner history gives
+# it (a probability transformation describes the same curve); K and the caller's Series never change.
+HIST_DEPTH = {"quick": 3, "thorough": 4}
+HIST_CURVES = {"quick": [{"k_1": 5.0, "k_2": 13.0, "SD": 300.0, "ND": 1e6, "TN": 4.0, "TS": 1.3, "P": None}],
+               "thorough": [{"k_1": 5.0, "k_2": 13.0, "SD": 300.0, "ND": 1e6, "TN": 4.0, "TS": 1.3, "P": None},
+                            {"k_1": 3.0, "k_2": "inf", "SD": 100.0, "ND": 2.5e6, "TN": 12.0, "TS": None, "P": 0.1}]}
+_H_QUERIES = [(what, side, P) for what in ("cycles", "load") for side in ("lo", "hi") for P in ("native", 0.1)]
+_H_MAKERS = ["transform-0.1", "transform-0.9", "miner_elementary", "miner_haibach", "miner_original"]
+HIST_OPS = [(slot, "q") + q for slot in "KD" for q in _H_QUERIES] + [(src, "make", m) for src in "KD" for m in _H_MAKERS]
+
+
+def _hist_name(op):
+    return "%s.%s" % (op[0], "%s(%s,P=%s)" % op[2:] if op[1] == "q" else op[2])
+
+
+def history_run(case, seq):
+    import pylife.materiallaws  # noqa: F401
+    cv = {k: case[k] for k in ("k_1", "k_2", "SD", "ND", "TN", "TS", "P")}
+    rc = _ref(cv)
+    wc = _series(cv)
+    before = wc.copy()
+    native = rc.P
+    try:
+        K = wc.woehler
+        base = K.to_pandas().copy()
+        slots = {"K": (K, rc.k_2), "D": None}
+        arg = {("cycles", "lo"): 0.5 * rc.SD, ("cycles", "hi"): 2.0 * rc.SD, ("load", "lo"): rc.ND / 100.0, ("load", "hi"): rc.ND * 100.0}
+        for depth, oi in enumerate(seq):
+            op = HIST_OPS[oi]
+            if slots[op[0]] is None:
+                continue                                       # nothing has been derived yet
+            obj, k2 = slots[op[0]]
+            if op[1] == "make":
+                if op[2].startswith("transform"):
+                    slots["D"] = (obj.transform_to_failure_probability(float(op[2].split("-")[1])), k2)
+                else:
+                    k2n = {"miner_elementary": rc.k_1, "miner_haibach": 2 * rc.k_1 - 1, "miner_original": INF}[op[2]]
+                    slots["D"] = (getattr(obj, op[2])(), k2n)
+            else:
+                _, _, what, side, P = op
+                Pq = native if P == "native" else P
+                x = arg[(what, side)]
+                got = float(np.asarray(getattr(obj, what)(x, Pq), dtype=float))
+                rm = ref.Curve(rc.k_1, rc.SD, rc.ND, k2, rc.TN, rc.TS, rc.P)
+                exp = _safe(getattr(rm, what), x, Pq)
+                if _rel(got, exp) > RTOL:
+                    return [("C08/history/%s-of-a-kept-object-differs-from-the-curve" % what,
+                             {"at": depth, "call": _hist_name(op), "argument": x, "P": Pq, "got": got, "expected": exp, "k_2_of_the_slot": k2})]
+            if not wc.equals(before):
+                return [("C08/history/input-series-altered", {"at": depth, "call": _hist_name(op), "after": wc.to_dict()})]
+            if not _fields_equal(K.to_pandas(), base):
+                return [("C08/history/kept-object-altered", {"at": depth, "call": _hist_name(op), "before": base.to_dict(), "after": K.to_pandas().to_dict()})]
+    except Exception as e:
+        import traceback
+        where = [f for f in traceback.extract_tb(e.__traceback__) if "/pylife/" in f.filename]
+        if not where:
+            raise
+        return [("C08/history/raises-%s" % type(e).__name__, {"error": str(e)[:300], "where": "%s:%s" % (where[-1].filename.split("/pylife/")[-1], where[-1].name)})]
+    return []
+
+
+def run_history(shard, acc):
+    _, case, depth, prefix = shard
+    nops = range(len(HIST_OPS))
+    for d in range(max(1, len(prefix)), depth + 1):
+        for rest in itertools.product(nops, repeat=d - len(prefix)):
+            seq = tuple(prefix) + rest
+            acc.cases += 1
+            acc.max_depth = max(acc.max_depth, d)
+            acc.transitions += d
+            acc.evaluations += d
+            made = [i for i in seq if HIST_OPS[i][1] == "make"]
+            if made and HIST_OPS[seq[-1]][1] == "q":
+                acc.nontrivial += 1
+            for key, detail in history_run(case, seq):
+                acc.violation(key, dict(case, kind="history", seq=list(seq), ops=[_hist_name(HIST_OPS[i]) for i in seq]), detail)
+    acc.count("history_shards")
+
+
 # ---------------------------------------------------------------------------------------------------------
 def run_shard(shard):
     acc = Acc()
+    if shard[0] == "history":
+        run_history(shard, acc)
+        return acc
     if shard[0] == "conv":
         acc.sample({"scatter_conversion_lattice": {"T": CONV_T, "std": CONV_S}})
         for kind, vals in (("T", CONV_T), ("std", CONV_S)):
@@ -588,6 +679,8 @@ def run_shard(shard):
 
 def replay(case):
     kind = case.get("kind", "curve")
+    if kind == "history":
+        return history_run(case, case["seq"])
     if kind == "conv":
         return check_conversion(case["which"], case["x"])
     if kind == "bc":
